@@ -1086,8 +1086,12 @@ def c01(run):
             for p_, d_ in ((src, data), (osrc, other)):
                 with open(p_, "wb") as fh:
                     fh.write(d_)
-            m = hs.store_object("the-pid", src)
             log = []
+            if hno % 2 == 1:
+                # a related pid (the watched pid is a suffix of it) holds the same content BEFORE the watched pid is stored
+                hs.store_object("x-the-pid", src)
+                log.append("store_object(x-the-pid, same) ok [before the watched store]")
+            m = hs.store_object("the-pid", src)
             wrong = "0" * len(m.cid)
             menu = [
                 ("store_object(q, same)", lambda q: hs.store_object(q, src)),
@@ -1106,9 +1110,20 @@ def c01(run):
                 ("tag_object(the-pid, cid)", lambda q: hs.tag_object("the-pid", m.cid)),
                 ("get_hex_digest(q)", lambda q: hs.get_hex_digest(q, "md5")),
             ]
-            for step in range(rng.randint(3, 10 if quick else 25)):
-                name, fn = rng.choice(menu)
-                q = rng.choice(["q1", "q2", "the-pid-2", "the-pi"])
+            # corpus first: related identifiers sharing the content are stored and deleted around the watched pid
+            RELATED = ["x-the-pid", "pid", "THE-PID", "the-pi", "the-pid-2"]
+            scripted = []
+            if hno < 2 * len(RELATED):
+                rq = RELATED[hno // 2]
+                scripted = [("store_object(q, same)", rq), ("delete_object(q)", rq)] if hno % 2 == 0 else [("delete_object(q)", "x-the-pid"), ("store_object(q, same)", rq), ("delete_object(q)", rq)]
+            by_name = dict(menu)
+            for step in range(len(scripted) + rng.randint(3, 10 if quick else 25)):
+                if step < len(scripted):
+                    name, q = scripted[step]
+                    fn = by_name[name]
+                else:
+                    name, fn = rng.choice(menu)
+                    q = rng.choice(["q1", "q2", "the-pid-2", "the-pi", "x-the-pid", "pid", "THE-PID"])
                 try:
                     fn(q)
                     log.append(name.replace("q", q, 1) + " ok")
